@@ -2,6 +2,7 @@ import LachesisVerif.Model.Confirm
 import LachesisVerif.Model.Orderer
 import LachesisVerif.Proofs.ElectionInv
 import LachesisVerif.Proofs.RefEquivM
+import LachesisVerif.Proofs.ApplyAtropos
 /-!
 # C02 — Each block delivers exactly the new ancestry of its Atropos
 
@@ -496,5 +497,61 @@ theorem C02_reference_eq_model_delivered {ep : Nat} {rvals : List (Nat × Nat)} 
 example : ∃ s out, Run 1 exV1 [exE0] s out := exRun1
 
 end Reference
+
+/-! ### Optional callbacks (`applyAtropos`, abft/lachesis.go)
+
+The theorems above are about `Model.Confirm` (confirmed SET, `ApplyEvent` always present).
+`Model.ApplyAtropos` is the same walk over the store's confirmed-on TABLE with the application's
+optional callbacks; its four conditions (`decidedFrame != 0`, `onEventConfirmed != nil`,
+`BeginBlock == nil`, `EndBlock != nil`) are regenerated from the source (`Gen.Lachesis`). Which events
+a block marks confirmed does not depend on whether the application listens, so a block without
+`ApplyEvent` (or without `EndBlock`) changes nothing about what later blocks deliver. -/
+section Callbacks
+open Model.ApplyAtropos ApplyAtroposProofs
+
+/-- C02 (callbacks): when `BeginBlock` is given, `applyAtropos` marks exactly the events
+    `Model.Confirm.confirmEvents` confirms — whatever callbacks the application returned —, hands to
+    `ApplyEvent` exactly the list delivered there (nothing when `ApplyEvent` is nil), fails (runs out of
+    fuel) exactly when that does, and reports a seal only through a given `EndBlock`. -/
+theorem C02_callbacks_irrelevant {V : Type} (parents : Nat → List Nat) (fuel frame a : Nat) (hf : frame ≠ 0)
+    (cbs : Callbacks) (hb : cbs.beginBlock = true) (t : Tab) (c : List Nat) (h : Rel t c) (sr : Option V) :
+    (applyAtropos parents fuel cbs frame a t sr = none ↔ Model.Confirm.confirmEvents parents fuel c a = none) ∧
+    ∀ t' out r c' out', applyAtropos parents fuel cbs frame a t sr = some (t', out, r) →
+      Model.Confirm.confirmEvents parents fuel c a = some (c', out') →
+      Rel t' c' ∧ out = (if cbs.applyEvent then out' else []) ∧ r = (if cbs.endBlock then sr else none) := by
+  unfold applyAtropos Model.Confirm.confirmEvents Gen.Lachesis.noBeginBlock Gen.Lachesis.hasEndBlock
+  simp only [hb, Bool.not_true, Bool.false_eq_true, if_false]
+  obtain ⟨hn, hs⟩ := dfsCb_sim parents frame hf cbs.applyEvent fuel [a] t c [] [] h
+  constructor
+  · rw [← hn]
+    cases dfsCb parents frame cbs.applyEvent fuel [a] t [] <;> simp
+  · intro t' out r c' out' e1 e2
+    cases hd : dfsCb parents frame cbs.applyEvent fuel [a] t [] with
+    | none => rw [hd] at e1; cases e1
+    | some p =>
+      rw [hd] at e1
+      cases e1
+      obtain ⟨r1, r2, r3⟩ := hs p.1 p.2 c' out' (by rw [hd]) e2
+      refine ⟨r1, ?_, rfl⟩
+      cases ha : cbs.applyEvent with
+      | true => simp only [if_true]; exact r2 ha rfl
+      | false => simp only [Bool.false_eq_true, if_false]; exact r3 ha
+
+/-- without `BeginBlock` nothing is marked or delivered and the epoch is never sealed -/
+theorem C02_no_begin_block {V : Type} (parents : Nat → List Nat) (fuel frame a : Nat) (cbs : Callbacks)
+    (hb : cbs.beginBlock = false) (t : Tab) (sr : Option V) :
+    applyAtropos parents fuel cbs frame a t sr = some (t, [], none) := by
+  unfold applyAtropos Gen.Lachesis.noBeginBlock
+  simp [hb]
+
+/-- non-vacuity / sensitivity: chain 0 ← 1 ← 2; block 1 (Atropos 1) is delivered WITHOUT `ApplyEvent`,
+    block 2 (Atropos 2) with it: block 2 hands over exactly event 2 -/
+example :
+    let par : Nat → List Nat := fun n => if n = 0 then [] else [n - 1]
+    (do let (t1, _, _) ← applyAtropos (V := Unit) par 10 ⟨true, false, false⟩ 1 1 {} none
+        let (_, out, _) ← applyAtropos (V := Unit) par 10 ⟨true, true, true⟩ 2 2 t1 none
+        pure out) = some [2] := by decide
+
+end Callbacks
 
 end C02
